@@ -21,8 +21,9 @@ EXTENDS WideColumnCache, IOUtils
 
 Rec == ndJsonDeserialize(IOEnv.TRACE)
 
-TKeys == 0..15
-TClients == 0..15
+(* keys and clients that occur in the trace (constant: evaluated once) *)
+TKeys == {Rec[i].k : i \in {j \in 1..Len(Rec) : Rec[j].e = "gs" \/ Rec[j].e = "ws"}}
+TClients == {Rec[i].c : i \in {j \in 1..Len(Rec) : Rec[j].e = "gs" \/ Rec[j].e = "ws" \/ Rec[j].e = "new"}}
 TVals == {}
 
 VARIABLES l, done,
@@ -137,10 +138,11 @@ GeFrom(c, j) == IF j > Len(Rec) \/ Rec[j].e = "reset" THEN 0
                 ELSE IF Rec[j].e = "ge" /\ Rec[j].c = c THEN Rec[j].db ELSE GeFrom(c, j + 1)
 
 THidden(c) ==
-    /\ Probe(c) \/ Flight(c) \/ (pc[c].ndb < GeFrom(c, l) /\ ReadDb(c)) \/ Fill(c)
+    /\ Probe(c) \/ Flight(c) \/ (pc[c].st = "readdb" /\ pc[c].ndb < GeFrom(c, l) /\ ReadDb(c)) \/ Fill(c)
     /\ UNCHANGED <<l, done, wpend, callow, cand, gal, tagsSeen, runTags>>
 
-TEvict(k) == Evict(k) /\ UNCHANGED <<l, done, wpend, callow, cand, gal, tagsSeen, runTags>>
+(* only the order of an eviction relative to a probe or a fill matters *)
+TEvict(k) == (\E c \in Clients : pc[c].k = k /\ pc[c].st \in {"probe", "fill"}) /\ Evict(k) /\ UNCHANGED <<l, done, wpend, callow, cand, gal, tagsSeen, runTags>>
 
 (* the observed result must be the model's; a wrong one must carry the tag *)
 TGetEnd ==
@@ -168,12 +170,14 @@ TFinish ==
     /\ done' = TRUE
     /\ UNCHANGED <<vars, l, wpend, callow, cand, gal, tagsSeen, runTags>>
 
+(* (depth-first search explores the LAST disjunct first: events before      *)
+(* hidden steps before evictions)                                          *)
 TNext ==
+    \/ \E k \in Keys : TEvict(k)
+    \/ \E e \in 0..(NextEpoch - 1) : TCommit(e) \/ TNotify(e)
+    \/ \E c \in Clients : TApply(c) \/ THidden(c)
     \/ TRun \/ TNew \/ TWriteStart \/ TWriteEnd \/ TSubmit \/ TCommitStart \/ TCommitEnd
     \/ TGetStart \/ TGetEnd \/ TSkip \/ TReset \/ TFinish
-    \/ \E c \in Clients : TApply(c) \/ THidden(c)
-    \/ \E e \in 0..(NextEpoch - 1) : TCommit(e) \/ TNotify(e)
-    \/ \E k \in Keys : TEvict(k)
 
 TraceSpec == TInit /\ [][TNext]_tvars
 
